@@ -148,14 +148,20 @@ def prepare_scratch(repo=None):
         dst = os.path.join(root, "crate")
         shutil.rmtree(root, ignore_errors=True)
         os.makedirs(root)
-        atexit.register(_cleanup, root)
+        if not os.environ.get("VERIF_KANI_KEEP"):
+            atexit.register(_cleanup, root)
 
         def ignore(d, names):
             return [n for n in names if n in ("target", ".git")]
 
         shutil.copytree(repo, dst, ignore=ignore, symlinks=True)
         if not os.path.exists(os.path.join(dst, "Cargo.lock")):
-            raise RuntimeError("the working tree has no Cargo.lock (needed for an offline build)")
+            # Cargo.lock is git-ignored in nuts-rs: a scratch worktree of /repo (VERIF_REPO) has none; use /repo's
+            fallback = "/repo/Cargo.lock"
+            if os.path.exists(fallback):
+                shutil.copy(fallback, os.path.join(dst, "Cargo.lock"))
+            else:
+                raise RuntimeError("the working tree has no Cargo.lock (needed for an offline build)")
         note = _apply_hooks(dst)
         _retarget_paths(dst)
         os.makedirs(TARGET_DIR, exist_ok=True)
@@ -277,7 +283,8 @@ def _run_watched(cmd, cwd, log_path, timeout_s, mem_gb):
 # ------------------------------------------------------------------------------------------------
 # parsing
 # ------------------------------------------------------------------------------------------------
-NOISE = re.compile(r"^(Unwinding loop |aborting path on assume|Not unwinding loop |\s*Compiling |\s*Checking [a-z]|warning: unused)")
+NOISE = re.compile(r"^(Unwinding loop |aborting path on assume|Not unwinding loop |\s*Compiling |\s*Checking [a-z]|warning: unused"
+                   r"|Check \d+: |\t - (Status: SUCCESS|Description|Location)|\s*$)")
 UNSUPPORTED = re.compile(r"is not currently supported by Kani|unsupported (feature|construct)|"
                          r"call to foreign .* function|Kani does not support", re.I)
 
@@ -298,8 +305,10 @@ def _failed_checks(out):
     return res
 
 
-def classify(r):
-    """-> (status, reason, failed_checks)."""
+def classify(r, allow_lib=False):
+    """-> (status, reason, failed_checks).  allow_lib (spec "allow_builtin_library_failures"): a run whose ONLY failed
+    checks sit inside CBMC's own C library models counts as SUCCESS (every check of the crate and of the harness was
+    discharged; CBMC decides all checks, a failing one does not mask the others) - assumption A-cbmc-fma."""
     out = r["out"]
     if r["why"] == "timeout":
         return "TIMEOUT", "harness timeout reached (process group killed)", []
@@ -328,9 +337,16 @@ def classify(r):
             return "ERROR", "CBMC failed without a property result", []
         unwind = [c for c in checks if "unwinding assertion" in c[0]]
         unsup = [c for c in checks if UNSUPPORTED.search(c[0])]
-        real = [c for c in checks if c not in unwind and c not in unsup]
+        # assertions inside CBMC's own C library models (e.g. `feraiseexcept` reached from its unfused
+        # `fma` model on inf*0) are artefacts of the model, not obligations of the crate
+        lib = [c for c in checks if "<builtin-library-" in c[1]]
+        real = [c for c in checks if c not in unwind and c not in unsup and c not in lib]
         if real:
             return "FAILED", "", checks
+        if lib and not unwind and not unsup and allow_lib:
+            return "SUCCESS", "only assertions of CBMC's built-in library models failed (allowed by the harness spec: A-cbmc-fma)", checks
+        if lib and not unwind and not unsup:
+            return "ERROR", "only assertions of CBMC's built-in library models failed (not a property of the crate)", checks
         if unwind:
             return "ERROR", "unwinding assertion failed: the harness bound is too small for the current code", checks
         if unsup:
@@ -416,7 +432,7 @@ def run_harness(spec, scratch, note=""):
     except Exception as e:  # noqa: BLE001 - anything here is an infrastructure error, never a violation
         res["detail"] = f"could not run Kani: {e!r}"
         return res
-    status, reason, checks = classify(r)
+    status, reason, checks = classify(r, bool(spec.get("allow_builtin_library_failures")))
     res["status"] = status
     res["time_s"] = round(r["verify_s"] if r["verify_s"] else r["wall_s"], 2)
     res["wall_s"] = round(r["wall_s"], 2)
@@ -428,10 +444,20 @@ def run_harness(spec, scratch, note=""):
         head += f"[scratch: {note}]\n"
     res["detail"] = head + _tail(r["out"])
     if status == "FAILED":
-        pcmd = _harness_cmd(spec, ["-Z", "concrete-playback", "--concrete-playback=print"])
+        pb = ["-Z", "concrete-playback", "--concrete-playback=print"]
+        pcmd = _harness_cmd(spec, pb)
         try:
             pr = _run_watched(pcmd, scratch, log + ".playback", timeout_s * 2, mem_gb)
             conc = parse_playback(pr["out"])
+            if not conc and "--solver" in spec.get("flags", []):
+                # SMT back-ends print no counterexample values; *finding* a violating input is the easy
+                # direction, so retry the playback on the default SAT back-end
+                fl = list(spec["flags"])
+                k = fl.index("--solver")
+                del fl[k:k + 2]
+                pcmd = _harness_cmd(dict(spec, flags=fl), pb)
+                pr = _run_watched(pcmd, scratch, log + ".playback2", timeout_s * 2, mem_gb)
+                conc = parse_playback(pr["out"])
             if conc:
                 res["concrete"] = conc + "\n\nplayback cmd: " + _cmd_string(pcmd)
             else:
